@@ -5,6 +5,7 @@ package internal
 import (
 	"bytes"
 	"encoding/binary"
+	"errors"
 	"fmt"
 	"strings"
 	"testing"
@@ -30,6 +31,23 @@ type vfRawItem struct {
 
 type vfC17EncCase struct {
 	Items []vfRawItem `json:"items"`
+	// FailedBefore > 0: before anything else another stream body is written into a sink that accepts only that many
+	// bytes and then fails (a request pipe closed by the peer, a reset stream): what that write leaves behind must
+	// not show up in the bodies written afterwards
+	FailedBefore int `json:"failedBefore,omitempty"`
+}
+
+// vfFailingSink accepts a number of bytes, then fails (partial writes included).
+type vfFailingSink struct{ left int }
+
+func (f *vfFailingSink) Write(p []byte) (int, error) {
+	if len(p) <= f.left {
+		f.left -= len(p)
+		return len(p), nil
+	}
+	n := f.left
+	f.left = 0
+	return n, errors.New("verif: write: broken pipe")
 }
 
 var vfCompNames = map[int32]string{0: "identity", 1: "identity", 2: "gzip", 3: "br", 4: "zstd", 5: "deflate", 6: "snappy"}
@@ -67,6 +85,13 @@ func (it vfRawItem) streamItem() *conformancev1.StreamContents_StreamItem {
 }
 
 func vfC17EncCheck(c vfC17EncCase) error {
+	if c.FailedBefore > 0 {
+		left := &conformancev1.StreamContents{Items: []*conformancev1.StreamContents_StreamItem{
+			{Payload: &conformancev1.MessageContents{Data: &conformancev1.MessageContents_Text{Text: "LEFTOVER-OF-A-FAILED-WRITE-LEFTOVER-OF-A-FAILED-WRITE"}}},
+			{Flags: 1, Payload: &conformancev1.MessageContents{Data: &conformancev1.MessageContents_Text{Text: "SECOND-LEFTOVER"}, Compression: conformancev1.Compression_COMPRESSION_GZIP}},
+		}}
+		_ = WriteRawStreamContents(left, &vfFailingSink{left: c.FailedBefore - 1})
+	}
 	// (1) each item alone: prefix + body, body decodes (independent decoder) to the payload
 	var concat bytes.Buffer
 	firstBad := -1
@@ -187,6 +212,9 @@ func TestVerifC17Encoders(t *testing.T) {
 			var c vfC17EncCase
 			for i, n := 0, rapid.IntRange(0, 5).Draw(t, "nitems"); i < n; i++ {
 				c.Items = append(c.Items, vfGenRawItem(t))
+			}
+			if rapid.IntRange(0, 3).Draw(t, "failedBefore") == 0 {
+				c.FailedBefore = rapid.IntRange(1, 90).Draw(t, "failAfterBytes")
 			}
 			return c
 		},
